@@ -6,6 +6,21 @@ claimed = {
  "C01": ("ownership ([who]) tables over every ORM statement, exact atom sets of the prune/ack/pull statements, loop/dominance rules for the publish fan-out", "§4 C01"),
  "C02": ("scoping atoms of every delivery mutation, immutability of message rows, data-dependence (provenance) of content fields end to end", "§4 C02"),
  "C03": ("who may clear completed_at, pull excludes completed rows, who creates delivery rows, error-origin rule for ack/nack/modify-deadline", "§4 C03"),
+ "C04": ("due-only selection, row-lock atoms, per-element lease update in the selecting transaction, postpone-only guard, backoff data dependence", "§4 C04"),
+ "C05": ("same-key predecessor lookup shape, link dominance, exact eligibility gate, SET NULL foreign key in schema and SQL", "§4 C05"),
+ "C06": ("callers and trigger dominance of dead-lettering, either-or reachability, retire-on-every-success-path, forward set atoms", "§4 C06"),
+ "C09": ("error-flow (K5) over every storage call, commit-hook discipline (K4), transaction-helper dominance, one-operation-one-transaction", "§4 C09"),
+ "C10": ("register-before-query on every path from entry and wake edges, broadcast-loop exits, writers-notify path rule, lockset over the waiter maps", "§4 C10"),
+ "C12": ("live-only name resolution atoms, create/exists/duplicate-key mapping, soft-delete mutators, unique indexes, List sibling agreement and keyset pagination", "§4 C12"),
+ "C13": ("partition atoms of the seek updates over the same operands, re-open mutators, snapshot content queries", "§4 C13"),
+ "C14": ("creation timestamps data dependence, expiry refresh dominance, sweep atoms, delay guard", "§4 C14"),
+ "C15": ("exact selection atoms of every prune job, age threshold shape, referential actions, service registry", "§4 C15"),
+ "C16": ("abstract interpretation (intervals/nilness/emptiness/zero-time, bounded disjunctive states, request taint) of every RPC handler against the constructors' panic preconditions and nil dereferences", "§4 C16"),
+}
+technique = {
+ "C16": "static analysis: abstract interpretation over go/ssa (finite domains, trace partitioning, request taint) + transaction-discipline dominance rules",
+ "C09": "static analysis: error-flow and commit-hook dominance rules over go/ssa; ORM statement shapes",
+ "C10": "static analysis: path/dominance rules over go/ssa CFGs, must-lockset dataflow, commit-hook discipline",
 }
 na = {}
 checks=[]
@@ -23,7 +38,7 @@ for i in ids:
                 "text": "Static analysis of the resolved SSA program of /repo's working tree: decides structural NECESSARY conditions of the property on every path of every function the build contains (" + what + "). It does not decide the behavioural statement itself (histories, schedules, clock arithmetic, database semantics) — see the evidence file's explanation for the clauses decided and not decided.",
                 "design_ref": "DESIGN.md " + ref},
             "level_note": "Trusted: go/packages+go/ssa (x/tools v0.50.0), ent's generated API mapping (setter -> column constants, predicate -> sql.Field* call), the database executing statements as rendered. Rules are necessary conditions only.",
-            "technique": "static analysis: custom SSA/AST rules (ORM statement shape abstraction, ownership tables, dominance, data dependence) via go/packages + go/ssa",
+            "technique": technique.get(i, "static analysis: custom SSA/AST rules (ORM statement shape abstraction, ownership tables, dominance, data dependence) via go/packages + go/ssa"),
         })
     else:
         na[i] = "check not built yet (work in progress; see DESIGN.md Appendix B)"
